@@ -69,14 +69,23 @@ def model_configs(prop, thorough):
     return [("QSend-1msg-2rcpt", base % (2, 1, 2, 0, 3, "FALSE"))]
 
 
+# clauses that are a violation of more than one property
+ALSO = {"C03:MarkAtUnknownRecord": ("C04",),              # a misplaced mark does not protect the finished recipient from a retry
+        "C02:MessageNumberSharedByTwoMessages": ("C03",),
+        "C14:BounceRecordRemovedBeforeNoticeQueued": ("C03",),
+        "C03:MessageRemovedWithRecipientNeitherDeliveredNorBounced": ("C14",)}
+
+
 def report(ck, prop, runs, bad):
     """turn monitor verdicts into VIOLATION / KNOWN-FINDING, only for clauses of this property"""
     seen = set()
     other = {}
     for idx, why, pos, detail in bad:
         p = why.split(":")[0]
-        if p != prop:
+        if p != prop and prop not in ALSO.get(":".join(why.split(":")[:2]), ()):
             other[why] = other.get(why, 0) + 1
+            if os.environ.get("VERIF_DEBUG_VERDICTS"):
+                log("OTHER %s hist=%s pos=%d %s %s" % (why, runs[idx - 1]["h"].get("id"), pos, detail, [dict((k, v) for k, v in e.items() if v not in (0, "", []) and k not in ("b", "atab")) for e in runs[idx - 1]["ev"][max(0, pos - 8):pos]]))
             continue
         r = runs[idx - 1]
         h = r["h"]
